@@ -2,13 +2,21 @@
   RoModel.Drivers.Subject — `kind=subject`: one subject, one operation sequence (C10).
 
     case <id> kind=subject op=<publish|behavior|replay|async|unicast> p=<n|-1|-> src=N1,S0,N2,E1,U0,S1,C
-    res <id> r0=<trace> r1=<trace> r2=<trace> drops=<bare notifications> st=<per step: count has closed thrown completed>
+    res <id> r0=<trace> r1=<trace> r2=<trace> drops=<bare notifications> st=<per step: count has closed thrown completed> dev=<ids> pin=<ids> reg=<ids>
+
+  `dev`: the subscriber identities whose received trace in the model differs from the sequential
+  definition `Spec.received` (theorems: only unicast late subscribers with a backlog); `pin`: same
+  against the pinned variant of the unicast definition (theorem: never); `reg`: identities whose
+  registration / the status differ from `Spec.subscribed` / `Spec.status` (theorem: never).
+  These three fields are computed from the model and the definition only (validation of the
+  theorems' statements on the executed cases; the implementation's line does not have them).
 
   The k-th operation (1-based) carries the context with markers `7.k`; for `Subscribe` that is the
   subscriber context.  `p`: buffer size of replay/unicast (`-1` unlimited), initial value of behavior.
 -/
 import RoModel.DriverCore
 import RoModel.Subjects
+import RoModel.Spec.Subjects
 namespace Ro.Driver.Drivers.Subject
 open Ro Ro.Driver Ro.Subj
 
@@ -47,10 +55,20 @@ def renderBare (l : List (Notif Int)) : String :=
 def renderSt (s : State Int) : String :=
   toString s.countObservers ++ render s.hasObserver ++ render s.isClosed ++ render s.hasThrown ++ render s.isCompleted
 
+def pinned (k : Kind Int) : List (Op Int) → Nat → List (Notif Int) :=
+  match k with
+  | .unicast cap => Spec.unicastPinned cap
+  | k => Spec.received k
+
 def renderResult (k : Kind Int) (ops : List (Op Int)) : String :=
   let s := run k ops
   let sts := (scan k k.init ops).map renderSt
-  s!"r0={renderTrace (s.sub 0).got} r1={renderTrace (s.sub 1).got} r2={renderTrace (s.sub 2).got} drops={renderBare s.drops} st={if sts.isEmpty then "-" else ",".intercalate sts}"
+  let ids := [0, 1, 2]
+  let dev := ids.filter (fun i => (s.sub i).got != Spec.received k ops i)
+  let pin := ids.filter (fun i => (s.sub i).got != pinned k ops i)
+  let reg := ids.filter (fun i => (s.observers.contains i) != Spec.subscribed k ops i)
+    ++ (if s.status = Spec.status ops then [] else [9])
+  s!"r0={renderTrace (s.sub 0).got} r1={renderTrace (s.sub 1).got} r2={renderTrace (s.sub 2).got} drops={renderBare s.drops} st={if sts.isEmpty then "-" else ",".intercalate sts} dev={renderNats dev} pin={renderNats pin} reg={renderNats reg}"
 
 def run (c : Case) : String :=
   match parseKind (c.getD "op" "?") (parseInts (c.getD "p" "-")), parseOps (c.getD "src" "-") with
